@@ -23,6 +23,15 @@ func encodeHTTP2(v *wireVec) (*wireCase, error) {
 		buf.Write([]byte{0xFF, 0xFF, 0xFF, 0x00, 0x00, 0x00, 0x00, 0x00, 0x01})
 		buf.Write(filler(64, 3))
 		c.first = buf.Bytes()
+	case "manyframes":
+		fr := http2.NewFramer(&buf, nil)
+		fr.WriteSettings()
+		for i := 0; i < 4; i++ {
+			fr.WriteWindowUpdate(0, 1000)
+			fr.WritePriority(uint32(2*i+3), http2.PriorityParam{StreamDep: 0, Weight: 10})
+			fr.WritePing(false, [8]byte{1, 2, 3, 4, 5, 6, 7, byte(i)})
+		}
+		c.first = buf.Bytes()
 	default:
 		fr := http2.NewFramer(&buf, nil)
 		fr.WriteSettings()
